@@ -445,3 +445,21 @@ pub fn drive_inflate_random(tr: &mut Tr, obj: u32, z: &[u8], fmt: DataFormat, nc
     }
     tr.ev(json!({"ev": "inf_end", "obj": obj, "canonical": false, "spun": false}));
 }
+
+/// Two slices cut at `cut`; output of exactly `out_len` bytes. `trailer_cut` tells the spec that
+/// the cut lies inside the zlib trailer (no spare output byte is needed there).
+pub fn slice_iter_cut(tr: &mut Tr, z: &[u8], zlib: bool, cut: usize, out_len: usize) {
+    let mut out = vec![0u8; out_len];
+    let slices: Vec<&[u8]> = vec![&z[..cut], &z[cut..]];
+    let res = catch_unwind(AssertUnwindSafe(|| decompress_slice_iter_to_slice(&mut out, slices.iter().copied(), zlib, false)));
+    match res {
+        Err(_) => tr.ev(json!({"ev": "panic", "where": "decompress_slice_iter_to_slice"})),
+        Ok(Ok(k)) => {
+            let kk = k.min(out_len);
+            tr.ev(json!({"ev": "sliceiter", "nslices": 2, "out_len": out_len, "zlib": zlib, "ignore": false, "trailer_cut": true,
+                         "whole": true, "status": "Ok", "n": k, "data": bytes(&out[..kk])}))
+        }
+        Ok(Err(s)) => tr.ev(json!({"ev": "sliceiter", "nslices": 2, "out_len": out_len, "zlib": zlib, "ignore": false,
+                                   "trailer_cut": true, "whole": true, "status": st_name(s), "n": 0, "data": []})),
+    }
+}
